@@ -650,6 +650,16 @@ CliRecClause(ev) ==
 
 \* C07: truncated forms (parser with allow_truncated): the fields spelled are reported as the truncated properties,
 \* the zone is unknown unless given, dump_as_parsed reproduces the input
+\* beyond the listed properties: the names a truncated point reports for its largest given and smallest missing unit
+LargestProp(e) ==
+  IF e.yc >= 0 THEN "year_of_century" ELSE IF e.yd >= 0 THEN "year_of_decade" ELSE IF e.mo >= 0 THEN "month_of_year"
+  ELSE IF e.woy >= 0 THEN "week_of_year" ELSE IF e.doy >= 0 THEN "day_of_year" ELSE IF e.dom >= 0 THEN "day_of_month"
+  ELSE IF e.dow >= 0 THEN "day_of_week" ELSE IF e.hh >= 0 THEN "hour_of_day" ELSE IF e.mi >= 0 THEN "minute_of_hour"
+  ELSE IF e.ss >= 0 THEN "second_of_minute" ELSE ""
+SmallestMissing(e) ==
+  IF e.yc >= 0 THEN "century" ELSE IF e.yd >= 0 THEN "decade_of_century" ELSE IF e.mo >= 0 \/ e.woy >= 0 \/ e.doy >= 0 THEN "year_of_century"
+  ELSE IF e.dom >= 0 THEN "month_of_year" ELSE IF e.dow >= 0 THEN "week_of_year" ELSE IF e.hh >= 0 THEN "day_of_month"
+  ELSE IF e.mi >= 0 THEN "hour_of_day" ELSE IF e.ss >= 0 THEN "minute_of_hour" ELSE ""
 ParseTruncClause(ev) ==
   LET gt == ev.gt  e == TruncFields(gt)  q == ev.q
       lastfu == IF Len(gt.ds) = 0 THEN 0 ELSE Micro6(gt.ds)
@@ -667,6 +677,8 @@ ParseTruncClause(ev) ==
   ELSE IF (gt.tform = "none" \/ gt.zform = "none") /\ ev.pz = "unknown" /\ ~q.zu THEN "zone-not-unknown"
   ELSE IF (gt.tform = "none" \/ gt.zform = "none") /\ ev.pz = "assumed" /\ ~(~q.zu /\ q.zh = 5 /\ q.zm = 30) THEN "assumed-offset"
   ELSE IF Len(gt.ds) <= 6 /\ ev.dumped # TruncText(gd) THEN "dump-as-parsed-does-not-reproduce-input"
+  ELSE IF ev.lg # LargestProp(e) THEN "ext:largest-truncated-property-name"
+  ELSE IF ev.sm # SmallestMissing(e) THEN "ext:smallest-missing-property-name"
   ELSE "ok"
 
 \* one comparison performed by the repository's own tests: rel in {"eq","lt","le","gt","ge"}
